@@ -28,9 +28,9 @@ theorem C06_serialized_load_merges_entry (s : B.State) (oi : Nat) (o : B.Obj) (e
 whatever its own memory holds. -/
 theorem C06_memory_flush_writes_buffered (s : B.State) (oi : Nat) (o : B.Obj) (force : Bool) (e : B.Entry)
     (hb : (!(s.isBuffered o) || force) = true) (he : s.entry o.res = some e)
-    (hm : e.modified = true) (hc : e.fmeta = s.stat o.res) :
+    (hm : e.modified = true) (hc : e.fmeta = s.stat o.res) (hw : s.failing.contains o.res = false) :
     (flushMem s oi o force).1.store o.res = some (s.cellData e.cell).toBase :=
-  (flushMem_writes_buffered s oi o force e hb he hm hc).2
+  (flushMem_writes_buffered s oi o force e hb he hm hc hw).2
 
 /-- C06, flush, serialized strategy: whether a flush writes is decided from the buffered
 contents against the hash taken when the file entered the buffer — not from the data of the
@@ -41,10 +41,10 @@ theorem C06_serialized_flush_decides_from_entry (s : B.State) (oi : Nat) (o : B.
     (Tr.same e.contents e.hash = true →
       (flushSer s oi o force).1.stores = s.stores ∧ (flushSer s oi o force).2 = none) ∧
     (Tr.same e.contents e.hash = false → e.fmeta = s.stat o.res →
-      (mergeInto s oi o e.contents).2 = none →
+      (mergeInto s oi o e.contents).2 = none → s.failing.contains o.res = false →
       (flushSer s oi o force).1.store o.res = some ((mergeInto s oi o e.contents).1.root o).toBase) :=
   ⟨fun hm => ⟨(flushSer_readonly s oi o force e he hm).2.1, (flushSer_readonly s oi o force e he hm).1⟩,
-   fun hm hc hmerge => (flushSer_writes s oi o force e hb he hm hc hmerge).2.1⟩
+   fun hm hc hmerge hw => (flushSer_writes s oi o force e hb he hm hc hmerge hw).2.1⟩
 
 /-- C06 (and C05 "reads see all earlier buffered writes"), serialized strategy, as ONE statement
 about a write followed by a read: object `oi` saves while buffered (buffer not over capacity).
